@@ -46,7 +46,7 @@ CHECKS = {
         assumptions=["reflect.DeepEqual-style comparison with nil==empty containers is the equality the statement means",
                      "outside the stated universe (NaN/Inf, complex, unregistered types) only 'no different value without an error' is asserted"],
         parts=[
-            rapid_part("rapid", "internal/serialization", "TestC12", 40000, 400000, replay_test="TestC12Replay"),
+            rapid_part("rapid", "internal/serialization", "TestC12", 40000, 1000000, replay_test="TestC12Replay"),
             fuzz_part("fuzz", "internal/serialization", "FuzzC12", 90),
         ],
     ),
@@ -61,7 +61,7 @@ CHECKS["C01"] = dict(
     level_note="Trusts the harness builder (spec -> public Add*/Append* API) and the reference model gkit.Ref; node timing is irrelevant here (bodies are instantaneous, C03 owns schedules).",
     rule="rapid draws a GraphSpec by construction (typed nodes S/M, every node has a primary predecessor, extra fan-in/back edges/branches/joins) plus an input and a calling form; non-trivial = the model predicts >= 3 lambda executions and at least one of: two values merged in one step, a node executed >= 2 times (cycle), a branch deciding differently at two evaluations, a graph node executed, a chain with a parallel or branch stage; distinct = FNV-1a of the case JSON",
     assumptions=GRAPH_ASSUME,
-    parts=[rapid_part("rapid", "compose", "TestC01", 6000, 60000, qshards=4, replay_test="TestC01Replay")],
+    parts=[rapid_part("rapid", "compose", "TestC01", 6000, 480000, qshards=4, replay_test="TestC01Replay")],
 )
 
 CHECKS["C02"] = dict(
@@ -71,7 +71,7 @@ CHECKS["C02"] = dict(
     rule="rapid draws an acyclic GraphSpec (dag or workflow mode) by construction plus input and calling form; non-trivial = at least one node skipped and either a node with both finished and skipped control predecessors or a workflow with a control-only/data-only dependency; distinct = FNV-1a of case JSON; outcome vectors run are counted in extra.outcome_vectors_run",
     assumptions=GRAPH_ASSUME,
     exhaustive_part="TestC02ChannelEnum enumerates all report sequences for one dagChannel with <=3 control and <=2 data predecessors",
-    parts=[rapid_part("rapid", "compose", "TestC02", 5000, 50000, qshards=4, replay_test="TestC02Replay"),
+    parts=[rapid_part("rapid", "compose", "TestC02", 5000, 250000, qshards=4, replay_test="TestC02Replay"),
            dict(name="channel-enum", pkg="compose", run="TestC02ChannelEnum", kind="plain", replay_test="TestC02ChannelReplay",
                 quick=dict(timeout=300), thorough=dict(timeout=300))],
 )
@@ -82,7 +82,7 @@ CHECKS["C04"] = dict(
     level_note="Duplicate-key fan-ins (merge failure for values, silently concatenated for streams) are not generated and skipped if they arise: the statement does not fix them. any-typed node inputs are not generated (the framework has no concatenation for interface-typed chunks).",
     rule="rapid draws a GraphSpec with paradigm subsets/chunk plans/state/stream branches, an input, an input chunking and optionally a fault; non-trivial = >= 2 distinct native paradigm subsets among lambdas, a natively streaming producer with >= 2 chunks, >= 2 predicted executions and one of: fan-out, fan-in, stream branch, key wrapping, field mapping, state handler; distinct = FNV-1a of case JSON",
     assumptions=GRAPH_ASSUME,
-    parts=[rapid_part("rapid", "compose", "TestC04", 3000, 30000, qshards=4, replay_test="TestC04Replay")],
+    parts=[rapid_part("rapid", "compose", "TestC04", 3000, 180000, qshards=4, replay_test="TestC04Replay")],
 )
 
 HIST_RULE = ("rapid draws a GraphSpec (pregel / all-predecessor / workflow, nested, optional state with handlers and ProcessState), interrupt-before and "
@@ -95,7 +95,7 @@ CHECKS["C05"] = dict(
     level_note="Only graphs whose uninterrupted run completes are asserted (others are counted and skipped). Nodes not leading to END in all-predecessor graphs are ignored in the comparison. The step budget is per call, as in the code.",
     rule=HIST_RULE + "non-trivial = >= 2 interrupts and one of: interrupt inside a nested graph, a rerun node, mixed paradigms across calls, a loop through an interrupt point or nested graph, fan-in with values parked in a channel; distinct = FNV-1a of case JSON",
     assumptions=GRAPH_ASSUME,
-    parts=[rapid_part("rapid", "compose", "TestC05", 1500, 12000, qshards=4, replay_test="TestC05Replay", replay_reps=30)],
+    parts=[rapid_part("rapid", "compose", "TestC05", 1500, 144000, qshards=4, replay_test="TestC05Replay", replay_reps=30)],
 )
 
 CHECKS["C06"] = dict(
@@ -104,7 +104,7 @@ CHECKS["C06"] = dict(
     level_note="Observation is through instrumented lambda bodies (start/end events with inputs/outputs); pass-through and graph nodes configured as interrupt points are exercised but only judged through the lambdas around them.",
     rule=HIST_RULE + "non-trivial = >= 1 interrupt with an honoured before/after point and one of: before-node directly after START, nested interrupt, workflow (eager) mode, graph with branches; distinct = FNV-1a of case JSON",
     assumptions=GRAPH_ASSUME,
-    parts=[rapid_part("rapid", "compose", "TestC06", 1500, 12000, qshards=4, replay_test="TestC06Replay", replay_reps=10)],
+    parts=[rapid_part("rapid", "compose", "TestC06", 1500, 144000, qshards=4, replay_test="TestC06Replay", replay_reps=10)],
 )
 
 CHECKS["C13"] = dict(
@@ -113,8 +113,8 @@ CHECKS["C13"] = dict(
     level_note="For failures that travel on a stream in stream-mode paradigms only survival/return is asserted here (whether such a stream is read is decided by C04's influence analysis). Node path naming is not asserted below chain levels (chain node keys are generated by the framework).",
     rule="rapid draws a GraphSpec (all modes, nested, paradigm subsets) and a fault plan; non-trivial = the model executes an injected failure and (it sits at nesting depth >= 1, or >= 2 failing nodes execute in the failing step, or the failure travels on a stream); distinct = FNV-1a of case JSON",
     assumptions=GRAPH_ASSUME,
-    parts=[rapid_part("rapid", "compose", "TestC13", 4000, 40000, qshards=4, replay_test="TestC13Replay"),
-           rapid_part("forwarder", "schema", "TestC13Forwarder", 1500, 8000, shards=8, replay_test="TestC13ForwarderReplay", replay_reps=5)],
+    parts=[rapid_part("rapid", "compose", "TestC13", 4000, 320000, qshards=4, replay_test="TestC13Replay"),
+           rapid_part("forwarder", "schema", "TestC13Forwarder", 1500, 64000, shards=8, replay_test="TestC13ForwarderReplay", replay_reps=5)],
 )
 
 CHECKS["C08"] = dict(
@@ -123,7 +123,7 @@ CHECKS["C08"] = dict(
     level_note="The Go scheduler is not owned: interleavings inside peek/close are sampled through yields, not enumerated. Closing one reader twice and merging two readers that share a source are outside the contract / the oracle and are not generated. 'Blocked forever' is decided after a 20 s grace period with all readers closed (state dump attached).",
     rule="rapid draws sources, derivations and a history (3-40 ops); non-trivial = the forest contains a copy and a merge or convert, >= 3 receives happened, and one of: a copy closed before a sibling finished, a merge of >= 6 sources, a send after all readers closed, a derivation in mid-history; distinct = FNV-1a of case JSON",
     assumptions=["single owner per reader (no concurrent Recv/Close on one reader)", "values are ints tagged with source and sequence number"],
-    parts=[rapid_part("rapid", "schema", "TestC08", 6000, 40000, race=True, replay_test="TestC08Replay", replay_reps=20)],
+    parts=[rapid_part("rapid", "schema", "TestC08", 6000, 240000, race=True, replay_test="TestC08Replay", replay_reps=20)],
 )
 
 CHECKS["C14"] = dict(
@@ -132,7 +132,7 @@ CHECKS["C14"] = dict(
     level_note="Pure functions: no schedule involved. Empty chunk lists are not generated (the stream drain handles them before concatenation).",
     rule="rapid draws a chunk kind, 2-8 chunks and a split point (70% of message lists keep role/name/ids consistent so that concatenation succeeds); non-trivial = >= 3 chunks, split point strictly inside (prefix >= 2 chunks) and, for messages, tool-call fragments on >= 2 indices or a nested extra map; distinct = FNV-1a of case JSON",
     assumptions=["reflect.DeepEqual on the resulting messages is the equality meant by 'same result'"],
-    parts=[rapid_part("rapid", "schema", "TestC14", 30000, 300000, replay_test="TestC14Replay"),
+    parts=[rapid_part("rapid", "schema", "TestC14", 30000, 600000, replay_test="TestC14Replay"),
            fuzz_part("fuzz", "schema", "FuzzC14", 90)],
 )
 
@@ -142,7 +142,7 @@ CHECKS["C20"] = dict(
     level_note="The well-formedness reference is used in one direction only (violation => error); nothing is asserted about sequences it considers fine. Type inference of pass-through nodes is C07's business and not asserted here beyond determinism.",
     rule="rapid draws a builder kind, optional state and a call sequence; non-trivial = >= 6 calls and either the sequence compiled or its first failing call is not among the first two; the evidence histogram lists the violation kinds hit; distinct = FNV-1a of case JSON",
     assumptions=["all lambdas are string->string (map->string after a parallel) so that type mismatches do not mask construction errors"],
-    parts=[rapid_part("rapid", "compose", "TestC20", 6000, 60000, qshards=4, replay_test="TestC20Replay")],
+    parts=[rapid_part("rapid", "compose", "TestC20", 6000, 240000, qshards=4, replay_test="TestC20Replay")],
 )
 
 CHECKS["C07"] = dict(
@@ -151,7 +151,7 @@ CHECKS["C07"] = dict(
     level_note="Violations are only reported with dynamic evidence (a run that fails or panics), so a reference that is stricter than the framework's static rules cannot raise an alarm. nil interface values are judged by a separate signature.",
     rule="rapid draws graph types, 1-6 nodes (lambda / pass-through), optional branches and pre-handlers, an order for the Add* calls, dynamic values and the calling form; non-trivial = the graph compiled and contains a pass-through typed by inference or a may-assignable connection exercised by a value; distinct = FNV-1a of case JSON",
     assumptions=["reflect.Type.AssignableTo is the meaning of 'assignable'"],
-    parts=[rapid_part("rapid", "compose", "TestC07", 8000, 80000, qshards=4, replay_test="TestC07Replay")],
+    parts=[rapid_part("rapid", "compose", "TestC07", 8000, 1200000, qshards=4, replay_test="TestC07Replay")],
 )
 
 CHECKS["C15"] = dict(
@@ -160,7 +160,7 @@ CHECKS["C15"] = dict(
     level_note="Acceptance itself is asserted only for overlaps (the direction the statement fixes); sets the framework rejects are counted, not judged. Stream mode delivers each source as a single chunk.",
     rule="rapid draws source/target type, a source value and 1-5 mappings from the path tables (including unknown/unexported fields and mismatching types); non-trivial = >= 2 mappings and a path of depth >= 2 in an accepted set, or an overlapping set with >= 2 mappings; distinct = FNV-1a of case JSON",
     assumptions=["nil and empty containers are considered equal when comparing the successor's input with the reference"],
-    parts=[rapid_part("rapid", "compose", "TestC15", 6000, 60000, qshards=4, replay_test="TestC15Replay")],
+    parts=[rapid_part("rapid", "compose", "TestC15", 6000, 1200000, qshards=4, replay_test="TestC15Replay")],
 )
 
 CHECKS["C16"] = dict(
@@ -169,7 +169,7 @@ CHECKS["C16"] = dict(
     level_note="Designating a graph node is modelled as addressing the nodes of the option's type inside that graph. Tools-node and chat-model options are not generated (their routing goes through the same extractOption code path; their delivery to tools is C17's business).",
     rule="rapid draws the node tree and the calls; non-trivial = nesting depth >= 1, >= 3 component kinds, at least one option designated to a path of length >= 2 and one undesignated option; distinct = FNV-1a of case JSON",
     assumptions=["all values of one WithLambdaOption call share a type (documented precondition)"],
-    parts=[rapid_part("rapid", "compose", "TestC16", 5000, 50000, qshards=4, replay_test="TestC16Replay")],
+    parts=[rapid_part("rapid", "compose", "TestC16", 5000, 750000, qshards=4, replay_test="TestC16Replay")],
 )
 
 CHECKS["C10"] = dict(
@@ -178,7 +178,7 @@ CHECKS["C10"] = dict(
     level_note="Only clean runs are judged (failing or timing-dependent runs are counted and skipped). Tool-call units are exercised in C17. Parallel overlap is produced by gates and observed (label gated-bodies-overlapped); the interleaving inside the framework is the Go scheduler's.",
     rule="rapid draws a GraphSpec, paradigm, handler supply plan and release order; non-trivial = (>= 2 designated handlers on top-level nodes, >= 2 gated bodies observed waiting at the same time, per-call handlers in >= 2 options) or (Stream paradigm with a full handler closing its copy early and >= 2 executions); distinct = FNV-1a of case JSON",
     assumptions=GRAPH_ASSUME,
-    parts=[rapid_part("rapid", "compose", "TestC10", 1500, 12000, race=True, replay_test="TestC10Replay", replay_reps=5)],
+    parts=[rapid_part("rapid", "compose", "TestC10", 1500, 96000, race=True, replay_test="TestC10Replay", replay_reps=5)],
 )
 
 CHECKS["C11"] = dict(
@@ -187,8 +187,8 @@ CHECKS["C11"] = dict(
     level_note="Overlap of state accesses is produced by gates and observed (label gated-bodies-overlapped); interleavings inside the framework are the Go scheduler's. Nested stateful graphs executed more than once per run are checked through the generator count and the monitor only (their earlier state objects are gone).",
     rule="rapid draws a stateful GraphSpec, paradigm, release order, yield count and number of concurrent runs; non-trivial = >= 2 gated bodies observed waiting at once or a nested stateful graph; distinct = FNV-1a of case JSON",
     assumptions=GRAPH_ASSUME,
-    parts=[rapid_part("rapid", "compose", "TestC11", 1500, 12000, race=True, replay_test="TestC11Replay", replay_reps=5),
-           rapid_part("resume", "compose", "TestC11Resume", 800, 6000, race=False, replay_test="TestC11ResumeReplay", replay_reps=10)],
+    parts=[rapid_part("rapid", "compose", "TestC11", 1500, 96000, race=True, replay_test="TestC11Replay", replay_reps=5),
+           rapid_part("resume", "compose", "TestC11Resume", 800, 48000, race=False, replay_test="TestC11ResumeReplay", replay_reps=10)],
 )
 
 CHECKS["C17"] = dict(
@@ -197,7 +197,7 @@ CHECKS["C17"] = dict(
     level_note="A panic of the first (inline) tool call in a standalone ToolsNode.Invoke escapes to the caller by design of the statement (only the enclosing run is promised to fail); it is counted, not judged.",
     rule="rapid draws tools, calls, handler presence, embedding, paradigm and completion order; non-trivial = >= 3 calls including a repeated tool, completion order different from call order, >= 2 tool kinds; distinct = FNV-1a of case JSON",
     assumptions=["tool outputs are a deterministic function of (tool name, arguments)"],
-    parts=[rapid_part("rapid", "compose", "TestC17", 3000, 30000, race=True, replay_test="TestC17Replay", replay_reps=3)],
+    parts=[rapid_part("rapid", "compose", "TestC17", 3000, 120000, race=True, replay_test="TestC17Replay", replay_reps=3)],
 )
 
 CHECKS["C18"] = dict(
@@ -206,7 +206,7 @@ CHECKS["C18"] = dict(
     level_note="The default streaming tool-call detector's documented precondition is respected by construction. Unknown tool names are C17's business.",
     rule="rapid draws script, chunkings, tools, return-directly set, MaxStep, modifier; non-trivial = (>= 2 model turns and a turn with >= 2 tool calls) or (a return-directly hit after a normal turn) or the step limit reached; distinct = FNV-1a of case JSON",
     assumptions=["the model mock answers the k-th call of a run with the k-th script entry"],
-    parts=[rapid_part("rapid", "flow/agent/react", "TestC18", 3000, 30000, qshards=4, replay_test="TestC18Replay")],
+    parts=[rapid_part("rapid", "flow/agent/react", "TestC18", 3000, 600000, qshards=4, replay_test="TestC18Replay")],
 )
 
 CHECKS["C09"] = dict(
@@ -215,10 +215,10 @@ CHECKS["C09"] = dict(
     level_note="The race detector judges executed interleavings only; absence of a report is weak evidence. The Go scheduler is not owned.",
     rule="rapid draws the object, worker and call counts, inputs and paradigms; non-trivial = >= 3 calls on an object with state, branches or nesting (graphs) / on an agent with a non-empty script; distinct = FNV-1a of case JSON",
     assumptions=GRAPH_ASSUME,
-    parts=[rapid_part("graphs", "compose", "TestC09", 600, 5000, race=True, replay_test="TestC09Replay", replay_reps=5),
-           rapid_part("react", "flow/agent/react", "TestC09React", 400, 3000, race=True, replay_test="TestC09ReactReplay", replay_reps=5),
-           rapid_part("host", "flow/agent/multiagent/host", "TestC09Host", 400, 3000, race=True, replay_test="TestC09HostReplay", replay_reps=5),
-           rapid_part("tools", "compose", "TestC09Tools", 500, 4000, race=True, replay_test="TestC09ToolsReplay", replay_reps=5)],
+    parts=[rapid_part("graphs", "compose", "TestC09", 600, 12500, race=True, replay_test="TestC09Replay", replay_reps=5),
+           rapid_part("react", "flow/agent/react", "TestC09React", 400, 7500, race=True, replay_test="TestC09ReactReplay", replay_reps=5),
+           rapid_part("host", "flow/agent/multiagent/host", "TestC09Host", 400, 7500, race=True, replay_test="TestC09HostReplay", replay_reps=5),
+           rapid_part("tools", "compose", "TestC09Tools", 500, 10000, race=True, replay_test="TestC09ToolsReplay", replay_reps=5)],
 )
 
 CHECKS["C19"] = dict(
@@ -227,7 +227,7 @@ CHECKS["C19"] = dict(
     level_note="Which interleavings occur is left to the Go scheduler; a leak that needs a specific interleaving is found only if that interleaving happens.",
     rule="rapid draws the graph, input, paradigm, pipe capacity, laziness, read count and handler mode; non-trivial = in scope, >= 2 producers, an early close (caller, handler or prefix branch) and a graph with a branch, fan-in, nesting or fan-out; distinct = FNV-1a of case JSON",
     assumptions=GRAPH_ASSUME,
-    parts=[rapid_part("leaks", "compose", "TestC19", 400, 8000, qshards=8, replay_test="TestC19Replay", replay_reps=3)],
+    parts=[rapid_part("leaks", "compose", "TestC19", 400, 48000, qshards=8, replay_test="TestC19Replay", replay_reps=3)],
 )
 
 CHECKS["C03"] = dict(
@@ -236,8 +236,8 @@ CHECKS["C03"] = dict(
     level_note="The Go scheduler is not owned: interleavings inside the few instructions between hook points are sampled, not enumerated; the yields make the narrow windows likely, not certain.",
     rule="rapid draws batches/task kinds/release picks/yield table (white box) or graph, input, paradigm, release picks, yield table (black box); non-trivial = overflow list held >= 2 finished tasks or >= 3 gated bodies outstanding at once (white box) / >= 2 bodies overlapped and the release order differs from identity (black box); distinct = FNV-1a of case JSON",
     assumptions=GRAPH_ASSUME + ["hook points compiled in with -tags verif (add-only, MANIFEST.hooks)"],
-    parts=[rapid_part("taskmanager", "compose", "TestC03TaskManager", 2000, 30000, race=True, tags="verif", replay_test="TestC03TaskManagerReplay"),
-           rapid_part("graphs", "compose", "TestC03", 250, 2500, qshards=4, race=True, tags="verif", replay_test="TestC03Replay")],
+    parts=[rapid_part("taskmanager", "compose", "TestC03TaskManager", 2000, 39000, race=True, tags="verif", replay_test="TestC03TaskManagerReplay"),
+           rapid_part("graphs", "compose", "TestC03", 250, 3250, qshards=4, race=True, tags="verif", replay_test="TestC03Replay")],
 )
 
 # properties not claimed (with reason); everything else not in CHECKS is "not built yet"
